@@ -194,21 +194,27 @@ def strings_split(ex, args, name):
     s, sep = args
     if isinstance(s, str) and isinstance(sep, str):
         return ex.mkslice(s.split(sep))
-    # symbolic: fork on number of separators (bounded by 6)
+    # symbolic: fork on the number of parts; parts are fresh strings without the separator (word equation)
     if not isinstance(sep, str) or len(sep) != 1:
         raise Unsupported('strings.Split symbolic sep')
     s = zstr(s)
-    parts = []
-    rest = s
-    for k in range(8):
-        if ex.branch(z3.Contains(rest, z3.StringVal(sep))):
-            i = z3.IndexOf(rest, z3.StringVal(sep), 0)
-            parts.append(simp(z3.SubString(rest, 0, i)))
-            rest = simp(z3.SubString(rest, i + 1, z3.Length(rest) - i - 1))
-        else:
-            parts.append(rest)
+    sepv = z3.StringVal(sep)
+    MAXP = 6
+    for n in range(1, MAXP + 1):
+        parts = [ex.fresh('part', 'str') for _ in range(n)]
+        cat = parts[0]
+        for p in parts[1:]:
+            cat = z3.Concat(cat, sepv, p)
+        cons = [s == cat] + [z3.Not(z3.Contains(p, sepv)) for p in parts]
+        if n == MAXP:
+            # MAXP or more parts: the tail part may itself contain separators
+            cons = [s == cat] + [z3.Not(z3.Contains(p, sepv)) for p in parts[:-1]]
+            ex.assume(z3.And(*cons))
+            ex.env['split_truncated'] = True
             return ex.mkslice(parts)
-    raise UnwindExceeded('strings.Split: more than 8 parts')
+        if ex.branch(z3.And(*cons)):
+            return ex.mkslice(parts)
+    raise Infeasible()
 
 
 @intr('strings.Join')
